@@ -222,6 +222,8 @@ class FromArrayOp:
                 args["lock"] = True
             if rng.random() < ctx.p_custom_getitem and not spec.get("lazy"):
                 args["getitem"] = "rec"
+            if rng.random() < ctx.p_asarray_false and not spec.get("lazy"):
+                args["asarray"] = False  # blocks reach the tasks un-coerced (what asanyarray() of a raw operand does)
         elif rng.random() < 0.1:
             args["lock"] = True
         return args
@@ -1228,6 +1230,34 @@ class DaskIndexOp:
         return x[(y % 7) > a["thr"]] if y.dtype.kind != "b" else x[y]
 
 
+@op("raw_operand", arity=1, weight=0.0)
+class RawOperandOp:
+    """x (op) <array-like source object>: the source enters as a RAW operand, i.e. through asanyarray()
+    (from_array(..., asarray=False)), not through an explicit from_array call."""
+
+    @staticmethod
+    def gen(rng, ctx, ins):
+        (x,) = ins
+        if not known(x) or x.ndim < 1 or x.dtype.kind not in "fiu":
+            return None
+        name = f"s{len(ctx.recipe['sources'])}"
+        shp = [int(d) for d in x.shape]
+        if rng.random() < 0.3 and len(shp) > 1:
+            shp = shp[1:]  # broadcast against the leading axis
+        ctx.recipe["sources"][name] = {"shape": shp, "dtype": rng.choice(["f8", "i8"]), "offset": rng.randint(0, 50), "kind": "sim"}
+        return {"src": name, "f": rng.choice(["add", "mul", "where"])}
+
+    @staticmethod
+    def apply(env, ins, a):
+        (x,) = ins
+        obj = env.source(a["src"])["obj"]
+        if a["f"] == "add":
+            return x + obj
+        if a["f"] == "mul":
+            return x * obj
+        return _da().where(x > 3, obj, 0)
+
+
 @op("int_index", arity=1, weight=0.5)
 class IntIndexOp:
     """A 1-d integer dask array holding valid (also negative) positions along one axis of x: an index
@@ -1307,6 +1337,7 @@ class Ctx:
         self.p_fine_chunks = 0.0
         self.p_simlock = 0.0
         self.p_lazy_source = 0.0
+        self.p_asarray_false = 0.0
         self.p_custom_getitem = 0.0
         self.unary_fns = None
         self.n_generators = 2
